@@ -98,6 +98,17 @@ def isNotFound : Fault â†’ Bool
   | .notFound => true
   | _ => false
 
+/-- `endPattern, e := findGuardPattern(row, endStart, END_PATTERN_REVERSED[0]); if e is NotFound { â€¦ [1] }` -/
+def endGuard (D : VarDom) (T : ItfT) (rr : List Bool) (endStart : Nat) (p0 : List Nat) : Res (Nat Ã— Nat) :=
+  match findGuardPattern D rr endStart p0 with
+  | .error e =>
+    if isNotFound e then
+      match nth T.endRev 1 with
+      | .error e => .error e
+      | .ok p1 => findGuardPattern D rr endStart p1
+    else .error e
+  | .ok r => .ok r
+
 def decodeEnd (D : VarDom) (T : ItfT) (row : List Bool) (nlw : Nat) : Res (Nat Ã— Nat) :=
   let rr := row.reverse                          -- row.Reverse(); defer row.Reverse()
   match wrapNF (skipWhiteSpace rr) with
@@ -106,17 +117,7 @@ def decodeEnd (D : VarDom) (T : ItfT) (row : List Bool) (nlw : Nat) : Res (Nat Ã
     match nth T.endRev 0 with
     | .error e => .error e
     | .ok p0 =>
-      let first := findGuardPattern D rr endStart p0
-      let second : Res (Nat Ã— Nat) :=
-        match first with
-        | .error e =>
-          if isNotFound e then
-            match nth T.endRev 1 with
-            | .error e => .error e
-            | .ok p1 => findGuardPattern D rr endStart p1
-          else .error e
-        | .ok r => .ok r
-      match wrapNF second with
+      match wrapNF (endGuard D T rr endStart p0) with
       | .error e => .error e
       | .ok ep =>
         match wrapNF (validateQuietZone rr nlw ep.1) with
